@@ -325,6 +325,20 @@ theorem autosave_latest_after_return (evs : List AEvent) (a : AState) (hc : ∀ 
   have := loadStep_insync l (runLoads codeStyle evs a) hp (insync_preserved evs a hc h)
   exact this.1 _ (this.2 hacc)
 
+/-- **autosave_recovers_after_interrupted_autosave.**  Whatever an interrupted autosave left
+    behind — the load `l0` is killed, fails or is torn at ANY of its file operations (`ft`), from
+    ANY earlier state `a0` (in particular with a stale temp file: absent, empty, partial or a
+    complete other config) — after the restart every later load that returns (persistence on, no
+    further fault) leaves the autosave file equal to that load's config, and that is what
+    `caddy run --resume` reads.  This holds because `creat` on the leftover temp file truncates
+    and reuses it (O_TRUNC, as `os.WriteFile` does); see `Witness.autosave_excl_fails` for the
+    O_EXCL variant. -/
+theorem autosave_recovers_after_interrupted_autosave (a0 : AState) (l0 : Load) (ft : Option FFault)
+    (evs : List AEvent) (hc : ∀ e ∈ evs, e.clean) (l : Load) (hp : l.persists = true) (hacc : l.accepted = true) :
+    resumeConfig (runLoads codeStyle (.load l0 ft :: .restart :: (evs ++ [.load l none])) a0) = some l.cfg := by
+  simp only [runLoads, resumeConfig]
+  exact autosave_latest_after_return evs _ hc (fun c hcur => by simp [AEvent.step] at hcur) l hp hacc
+
 /-- **autosave_only_if_persist_enabled.**  A load whose config has persistence off (or is
     null, or may not be persisted) performs no file operation and leaves both files as they
     were, in either style and under any fault. -/
@@ -387,6 +401,15 @@ example : acceptedIn codeStyle
 
 example : ∀ e ∈ [AEvent.load (exLoad [1] true true) none, .restart, .load (exLoad [1] true true) none], e.clean := by
   decide
+
+/-- config `[1]` is saved; the autosave of `[2,2]` is killed after one byte reached the temp file;
+    restart; `[3]` is loaded: the stale temp file `[2]` was reused, the file is `[3]`, no leftover -/
+example : (runLoads codeStyle
+      [.load (exLoad [1] true true) none, .load (exLoad [2, 2] true true) (some ⟨2, .killTorn 1⟩), .restart]
+      ⟨none, ⟨none, none⟩⟩).fs = ⟨some [1], some [2]⟩ ∧
+    (runLoads codeStyle
+      [.load (exLoad [1] true true) none, .load (exLoad [2, 2] true true) (some ⟨2, .killTorn 1⟩), .restart,
+       .load (exLoad [3] true true) none] ⟨none, ⟨none, none⟩⟩).fs = ⟨some [3], none⟩ := by decide
 
 /-! ### regenerated ties: the ORDER the theorems are about is the order the source has now
 
